@@ -1,0 +1,67 @@
+// Copyright Amazon.com, Inc. or its affiliates. All Rights Reserved.
+// SPDX-License-Identifier: GPL-2.0-only
+
+//! Fault injection points, only compiled with the `verif-hooks` feature (off by default).
+//!
+//! A plan is read once from the environment variable `CLOCKBOUND_VERIF_FAILPOINT`, formatted as
+//! `<site>:<hit>:<action>` where `action` is `panic` or `return`. On the `hit`-th time execution
+//! reaches `site`, the calling thread panics, or `hit()` returns true and the caller returns from
+//! its function. Without the variable every failpoint is inert.
+
+use std::collections::HashMap;
+use std::sync::Mutex;
+
+struct Plan {
+    site: String,
+    hit: u64,
+    panic: bool,
+}
+
+lazy_static::lazy_static! {
+    static ref PLAN: Option<Plan> = {
+        let spec = std::env::var("CLOCKBOUND_VERIF_FAILPOINT").ok()?;
+        let mut parts = spec.split(':');
+        let site = parts.next()?.to_string();
+        let hit = parts.next()?.parse::<u64>().ok()?;
+        let panic = match parts.next()? {
+            "panic" => true,
+            "return" => false,
+            _ => return None,
+        };
+        Some(Plan { site, hit, panic })
+    };
+    static ref COUNTS: Mutex<HashMap<&'static str, u64>> = Mutex::new(HashMap::new());
+}
+
+fn monotonic_ns() -> i128 {
+    let mut ts = libc::timespec {
+        tv_sec: 0,
+        tv_nsec: 0,
+    };
+    // SAFETY: `ts` is a valid timespec.
+    unsafe { libc::clock_gettime(libc::CLOCK_MONOTONIC, &mut ts) };
+    ts.tv_sec as i128 * 1_000_000_000 + ts.tv_nsec as i128
+}
+
+/// Returns true if the caller has to return from its function now. May panic instead.
+pub fn hit(site: &'static str) -> bool {
+    let plan = match PLAN.as_ref() {
+        Some(plan) if plan.site == site => plan,
+        _ => return false,
+    };
+    let count = {
+        let mut counts = COUNTS.lock().unwrap();
+        let count = counts.entry(site).or_insert(0);
+        *count += 1;
+        *count
+    };
+    if count != plan.hit {
+        return false;
+    }
+    let action = if plan.panic { "panic" } else { "return" };
+    eprintln!("VERIF-FAILPOINT fired {} {} {}", site, action, monotonic_ns());
+    if plan.panic {
+        panic!("verif failpoint {}", site);
+    }
+    true
+}
